@@ -2656,6 +2656,10 @@ def build_areas():
 
     a = float_area("FloatCmp", "Comparison of floats: `float/src/cmp.rs`.", uses=["FloatRepr"])
     C = "float/src/cmp.rs"
+    # C05 (round 6, /repo ee43486): case 4 clamps the precisions with `.min(isize::MAX as usize) as isize`
+    a.imports = ["Dashu.Model.GluePrelude.FloatCmp"]
+    a.consts = dict(a.consts)
+    a.consts[("isize", "MAX")] = ("GluePrelude.isize_MAX", "Int")
     a.targets.append(Target(C, "eq", lean="FBig_eq", after=r"PartialEq<FBig<R2, B>> for FBig<R1, B> \{",
                             self_ty="FBig", doc="<FBig as PartialEq>::eq"))
     a.targets.append(Target(C, "repr_cmp_same_base"))
@@ -2717,6 +2721,36 @@ def build_areas():
                             doc="<IBig as Shr<usize>>::shr", register=False))
     a.targets.append(Target("integer/src/shift_ops.rs", "shr", lean="IBig_ref_shr", after=r"impl Shr<usize> for &IBig \{", self_ty="Int",
                             doc="<&IBig as Shr<usize>>::shr", register=False))
+    areas.append(a)
+
+    # C09 (round 6, additive): the sign-level bit functions of IBig over the record `GluePrelude.BitK` of the magnitude-level methods
+    a = Area("IntBits", "Sign-level bit functions of `IBig`: `integer/src/bits.rs` (`IBig::trailing_zeros`, `IBig::trailing_ones`, "
+             "`<IBig as BitTest>::bit` / `bit_len`, `Not for IBig` / `&IBig`).",
+             {}, kernel="GluePrelude.BitK",
+             methods={("Int", "trailing_ones"): ("(k.trailing_ones {0})", "Int"),
+                      ("Int", "trailing_ones_neg"): ("(k.trailing_ones_neg {0})", ("option", "Int")),
+                      ("Int", "trailing_zeros"): ("(k.trailing_zeros {0})", ("option", "Int")),
+                      ("Int", "bit"): ("(k.bit {0} {1})", "Bool"),
+                      ("Int", "bit_len"): ("(k.bit_len {0})", "Int"),
+                      ("option", "unwrap"): ("(k.unwrap {0})", "Int"),
+                      ("Int", "add_one"): ("(GluePrelude.add_one {0})", "Int"),
+                      ("Int", "sub_one"): ("(GluePrelude.sub_one {0})", "Int"),
+                      ("Int", "with_sign"): ("(GluePrelude.with_sign {0} {1})", "Int")},
+             funcs={"IBig": ("{0}", "Int", ["Int"])})
+    a.imports = ["Dashu.Model.GluePrelude.IntBits"]
+    BITS = "integer/src/bits.rs"
+    a.targets.append(Target(BITS, "trailing_zeros", lean="IBig_trailing_zeros", after=r"\nimpl IBig \{", self_ty="Int",
+                            doc="IBig::trailing_zeros", register=False))
+    a.targets.append(Target(BITS, "trailing_ones", lean="IBig_trailing_ones", after=r"\nimpl IBig \{", self_ty="Int",
+                            doc="IBig::trailing_ones", register=False))
+    a.targets.append(Target(BITS, "bit", lean="IBig_bit", after=r"impl BitTest for IBig \{", self_ty="Int",
+                            doc="<IBig as BitTest>::bit", register=False))
+    a.targets.append(Target(BITS, "bit_len", lean="IBig_bit_len", after=r"impl BitTest for IBig \{", self_ty="Int",
+                            doc="<IBig as BitTest>::bit_len", register=False))
+    a.targets.append(Target(BITS, "not", lean="IBig_not", after=r"impl Not for IBig \{", self_ty="Int",
+                            doc="<IBig as Not>::not", register=False))
+    a.targets.append(Target(BITS, "not", lean="IBig_ref_not", after=r"impl Not for &IBig \{", self_ty="Int",
+                            doc="<&IBig as Not>::not", register=False))
     areas.append(a)
 
     a = Area("RatCmp", "Comparison of rationals: `rational/src/cmp.rs`.",
@@ -3836,6 +3870,107 @@ def gen_modular_buf():
 FILES["ModularBuf.lean"] = gen_modular_buf        # C13 round 5: buffer-level decision logic of rem_large / mul_normalized (additive)
 
 
+def gen_modular_add():
+    """C13 (round 6): decision logic of integer/src/modular/add.rs on the multi-word ring, mirrored on buffers by
+    `lean/Dashu/Model/NT/ModAddK.lean` — when `add_in_place` / `dbl_in_place` subtract the modulus, when `sub_in_place` /
+    `sub_in_place_swap` add it back, when `negate_in_place` subtracts from the modulus.  The word loops called, their argument
+    order and the debug assertions are checked as a fixed shape (fails closed when a routine no longer has it); the conditions are
+    regenerated.  `Props/C13Link.add_logic_gen` proves the model's tests equal to these definitions."""
+    out = ["/-! GENERATED by vlib/extract.py from /repo — do not edit.  Decision logic of integer/src/modular/add.rs on the multi-word reduced ring (C13). -/",
+           "namespace Dashu.Gen.ModularAdd", ""]
+    info = {}
+    src = read("integer/src/modular/add.rs")
+    ORD = {"is_ge": "isGE", "is_gt": "isGT", "is_le": "isLE", "is_lt": "isLT", "is_eq": "isEq", "is_ne": "isNe"}
+
+    def body_of(fn):
+        _, body = fn_body(src, fn)
+        return re.sub(r"//[^\n]*", "", body)
+
+    def boolean(cond, atoms, what):
+        """a condition over the given atoms with `||`, `&&`, `!`, parentheses and `c.is_xx()` -> Lean (same precedences)"""
+        toks = re.findall(r"\|\||&&|!|\(|\)|c\.is_\w+\(\)|\w+|\S", cond)
+        res = []
+        for t in toks:
+            if t in ("||", "&&", "!", "(", ")"):
+                res.append(t)
+            elif t in atoms:
+                res.append(t)
+            elif re.fullmatch(r"c\.(is_\w+)\(\)", t) and "c" in atoms and t[2:-2] in ORD:
+                res.append("c." + ORD[t[2:-2]])
+            else:
+                raise ExtractError("integer/src/modular/add.rs %s: unexpected token `%s` in the test `%s`" % (what, t, cond))
+        txt = " ".join(res).replace("( ", "(").replace(" )", ")").replace("! ", "!")
+        return "(" + txt + ")"
+
+    def h(t):
+        return hashlib.sha1(t.encode()).hexdigest()[:12]
+
+    for fn, buf, first in (("add_in_place", "lhs.0", r"let\s+overflow\s*=\s*add::add_same_len_in_place\(\s*&mut\s+lhs\.0\s*,\s*&rhs\.0\s*\)\s*;"),
+                           ("dbl_in_place", "raw.0", r"let\s+overflow\s*=\s*shift::shl_in_place\(\s*&mut\s+raw\.0\s*,\s*1\s*\)\s*>\s*0\s*;")):
+        body = body_of(fn)
+        mm = re.search(r"\bif\s+([^{};]+?)\s*\{\s*let\s+overflow2\s*=\s*add::sub_same_len_in_place\(\s*&mut\s+%s\s*,\s*modulus\s*\)\s*;\s*"
+                       r"debug_assert_eq!\(\s*overflow\s*,\s*overflow2\s*\)\s*;\s*\}" % re.escape(buf), body)
+        if not mm or len(re.findall(r"\bif\b", body)) != 1 or not re.search(first, body) \
+                or not re.search(r"let\s+modulus\s*=\s*&ring\.normalized_divisor\s*;", body) or len(re.findall(r"\blet\b", body)) != 3:
+            raise ExtractError("integer/src/modular/add.rs %s: shape `let modulus; let overflow = …; if … { let overflow2 = sub_same_len_in_place(.., modulus); debug_assert_eq!(overflow, overflow2); }` changed" % fn)
+        cond = mm.group(1).strip()
+        c2, k = re.subn(r"cmp::cmp_same_len\(\s*&%s\s*,\s*modulus\s*\)" % re.escape(buf), "c", cond)
+        if k > 1:
+            raise ExtractError("integer/src/modular/add.rs %s: more than one comparison in `%s`" % (fn, cond))
+        lean = boolean(c2, ["overflow", "c"], fn)
+        out.append("/-- `%s` (integer/src/modular/add.rs): the modulus is subtracted once iff `%s`\n    (`overflow` = carry out of the top word, `c` = `cmp_same_len(&%s, modulus)`) -/" % (fn, cond, buf))
+        out.append("def %s_subtracts (overflow : Bool) (c : Ordering) : Bool :=\n    %s\n" % (fn, lean))
+        info["ModularAdd.%s_subtracts" % fn] = h(cond)
+
+    for fn, first, buf in (("sub_in_place", r"let\s+overflow\s*=\s*add::sub_same_len_in_place\(\s*&mut\s+lhs\.0\s*,\s*&rhs\.0\s*\)\s*;", "lhs.0"),
+                           ("sub_in_place_swap", r"let\s+overflow\s*=\s*add::sub_same_len_in_place_swap\(\s*&lhs\.0\s*,\s*&mut\s+rhs\.0\s*\)\s*;", "rhs.0")):
+        body = body_of(fn)
+        mm = re.search(r"\bif\s+([^{};]+?)\s*\{\s*let\s+overflow2\s*=\s*add::add_same_len_in_place\(\s*&mut\s+%s\s*,\s*modulus\s*\)\s*;\s*"
+                       r"debug_assert!\(\s*overflow2\s*\)\s*;\s*\}" % re.escape(buf), body)
+        if not mm or len(re.findall(r"\bif\b", body)) != 1 or not re.search(first, body) \
+                or not re.search(r"let\s+modulus\s*=\s*&ring\.normalized_divisor\s*;", body) or len(re.findall(r"\blet\b", body)) != 3:
+            raise ExtractError("integer/src/modular/add.rs %s: shape `let modulus; let overflow = …; if … { let overflow2 = add_same_len_in_place(.., modulus); debug_assert!(overflow2); }` changed" % fn)
+        cond = mm.group(1).strip()
+        lean = boolean(cond, ["overflow"], fn)
+        out.append("/-- `%s` (integer/src/modular/add.rs): the modulus is added back iff `%s` (`overflow` = borrow out of the top word) -/" % (fn, cond))
+        out.append("def %s_adds_back (overflow : Bool) : Bool :=\n    %s\n" % (fn, lean))
+        info["ModularAdd.%s_adds_back" % fn] = h(cond)
+
+    body = body_of("negate_in_place")
+    mm = re.search(r"\bif\s+([^{};]+?)\s*\{\s*let\s+overflow\s*=\s*add::sub_same_len_in_place_swap\(\s*&ring\.normalized_divisor\s*,\s*&mut\s+raw\.0\s*\)\s*;\s*"
+                   r"debug_assert!\(\s*!\s*overflow\s*\)\s*;\s*\}", body)
+    if not mm or len(re.findall(r"\bif\b", body)) != 1 or len(re.findall(r"\blet\b", body)) != 1:
+        raise ExtractError("integer/src/modular/add.rs negate_in_place: shape `if … { let overflow = sub_same_len_in_place_swap(&ring.normalized_divisor, &mut raw.0); debug_assert!(!overflow); }` changed")
+    cond = mm.group(1).strip()
+    c2, k = re.subn(r"raw\.0\.iter\(\)\.all\(\s*\|w\|\s*\*w\s*==\s*0\s*\)", "all_zero", cond)
+    if k != 1:
+        raise ExtractError("integer/src/modular/add.rs negate_in_place: the all-words-zero scan `raw.0.iter().all(|w| *w == 0)` not found exactly once in `%s`" % cond)
+    lean = boolean(c2, ["all_zero"], "negate_in_place")
+    out.append("/-- `negate_in_place` (integer/src/modular/add.rs): the residue is replaced by `modulus - residue` iff `%s`\n    (`all_zero` = `raw.0.iter().all(|w| *w == 0)`) -/" % cond)
+    out.append("def negate_in_place_subtracts (all_zero : Bool) : Bool :=\n    %s\n" % lean)
+    info["ModularAdd.negate_in_place_subtracts"] = h(cond)
+    msrc = read("integer/src/modular/mul.rs")
+    for fn in ("mul_normalized", "sqr_normalized"):
+        _, body = fn_body(msrc, fn)
+        body = re.sub(r"//[^\n]*", "", body)
+        mms = re.findall(r"\bif\s+([^{};]+?)\s*\{\s*debug_assert_zero!\(\s*add::sub_same_len_in_place\(\s*product\s*,\s*modulus\s*\)\s*\)\s*;\s*\}", body)
+        if len(mms) != 1 or len(re.findall(r"sub_same_len_in_place", body)) != 1 or len(re.findall(r"cmp::cmp_same_len\(", body)) != 1:
+            raise ExtractError("integer/src/modular/mul.rs %s: shape `if … { debug_assert_zero!(add::sub_same_len_in_place(product, modulus)); }` changed" % fn)
+        cond = mms[0].strip()
+        c2, k = re.subn(r"cmp::cmp_same_len\(\s*product\s*,\s*modulus\s*\)", "c", cond)
+        if k != 1:
+            raise ExtractError("integer/src/modular/mul.rs %s: `cmp::cmp_same_len(product, modulus)` not found in `%s`" % (fn, cond))
+        lean = boolean(c2, ["c"], fn)
+        out.append("/-- `%s` (integer/src/modular/mul.rs), short product (`na + nb <= n` resp. `na * 2 <= n`): the modulus is subtracted once iff `%s`\n    (`c` = `cmp_same_len(product, modulus)`) -/" % (fn, cond))
+        out.append("def %s_subtracts (c : Ordering) : Bool :=\n    %s\n" % (fn, lean))
+        info["ModularAdd.%s_subtracts" % fn] = h(cond)
+    out.append("end Dashu.Gen.ModularAdd")
+    return "\n".join(out) + "\n", info
+
+
+FILES["ModularAdd.lean"] = gen_modular_add        # C13 round 6: decision logic of modular/add.rs on buffers (additive)
+
+
 # ------------------------------------------------------------------ C09: integer/src/math.rs helpers + the inline arms of bits.rs / shift_ops.rs
 #                                                                    over CHECKED machine integers
 
@@ -4386,6 +4521,60 @@ def gen_conv_consts():
         if n != 2 or len(precs) != 1:
             raise ExtractError("%s: expected FBig::to_%s and Repr::to_%s with one common precision, found %d fns, %r" % (rel, ty, ty, n, sorted(precs)))
         out.append("/-- `Context::new(…)` in `FBig::to_%s` and `Repr::to_%s` -/\ndef to_%s_precision : Nat := %d\n" % (ty, ty, ty, precs.pop()))
+    # round 6 (/repo 1349a4b): the early exit `match self[.repr].exponent_out_of_range(max_exp, min_exp)` of every to_f32 / to_f64
+    # (its literal arguments, and that it sits between the infinity test and `Context::new`), and the decision text of
+    # `Repr::exponent_out_of_range` itself, translated token by token; the model `exponentOutOfRange` CALLS the regenerated def
+    for ty in ("f32", "f64"):
+        args = set()
+        n = 0
+        for m in re.finditer(r"pub fn to_%s\(&self\)\s*->\s*Rounded<%s>\s*\{" % (ty, ty), fsrc):
+            b1 = balanced(fsrc, m.end() - 1)
+            body = re.sub(r"//[^\n]*", "", fsrc[m.end() - 1:b1])
+            a, b, c = one(r"match\s+self(?:\.repr)?\.exponent_out_of_range\((\d+),\s*-(\d+)\s*-\s*(\d+)\)\s*\{", body, rel + " to_" + ty)
+            i_inf, i_rng, i_ctx = body.find("is_infinite()"), body.find("exponent_out_of_range("), body.find("Context::<")
+            if not (0 <= i_inf < i_rng < i_ctx):
+                raise ExtractError("%s to_%s: the range test no longer sits between the infinity test and Context::new" % (rel, ty))
+            arms = " ".join(body[i_rng:i_ctx].split())
+            want = ("Some(true) => { return match self.sign() { Sign::Positive => Inexact(%s::INFINITY, Rounding::AddOne), "
+                    "Sign::Negative => Inexact(%s::NEG_INFINITY, Rounding::SubOne), } } "
+                    "Some(false) => return Inexact(self.sign() * 0%s, Rounding::NoOp), None => {} }" % (ty, ty, ty))
+            if want not in arms:
+                raise ExtractError("%s to_%s: the arms of the range test changed: %r" % (rel, ty, arms))
+            args.add((int(a), int(b), int(c)))
+            n += 1
+        if n != 2 or len(args) != 1:
+            raise ExtractError("%s: expected one common exponent_out_of_range(..) in FBig::to_%s and Repr::to_%s, found %r" % (rel, ty, ty, sorted(args)))
+        a, b, c = args.pop()
+        out.append("/-- `exponent_out_of_range(%d, -%d - %d)` in `FBig::to_%s` and `Repr::to_%s` (arms: +-inf AddOne/SubOne, +-0 NoOp) -/" % (a, b, c, ty, ty))
+        out.append("def to_%s_range_max_exp : Int := %d\ndef to_%s_range_min_exp : Int := -%d - %d\n" % (ty, a, ty, b, c))
+        info["to_%s_range" % ty] = [a, -b - c]
+    _, rbody = fn_body(fsrc, "exponent_out_of_range")
+    rb = " ".join(re.sub(r"//[^\n]*", "", rbody).split())
+    mm = re.fullmatch(r"\{ if self\.significand\.is_zero\(\) \{ None \} else if ([^{}]+) \{ Some\(true\) \} else if ([^{}]+) \{ Some\(false\) \} else \{ None \} \}", rb)
+    if not mm:
+        raise ExtractError("%s exponent_out_of_range: the body no longer has the mirrored shape: %r" % (rel, rb))
+
+    def tr_range(expr):
+        e2 = expr.replace("self.significand.bit_len() as isize", " BITLEN ").replace("self.exponent", " EXPONENT ")
+        res = []
+        for t in re.findall(r"[A-Za-z_]\w*|>=|<=|&&|\d+|[-+()<>]|\S", e2):
+            if t in ("max_exp", "min_exp", "<", ">", "-", "+", "(", ")") or t.isdigit():
+                res.append(t)
+            elif t == "EXPONENT":
+                res.append("exponent")
+            elif t == "BITLEN":
+                res.append("(bit_len : Int)")
+            elif t in (">=", "<=", "&&"):
+                res.append({">=": "≥", "<=": "≤", "&&": "∧"}[t])
+            else:
+                raise ExtractError("%s exponent_out_of_range: token %r of %r is outside the translated fragment" % (rel, t, expr))
+        return " ".join(res)
+
+    out.append("/-- `Repr::exponent_out_of_range(&self, max_exp, min_exp)` (%s): `if self.significand.is_zero() { None } else if %s { Some(true) }"
+               " else if %s { Some(false) } else { None }` -/" % (rel, mm.group(1), mm.group(2)))
+    out.append("def exponent_out_of_range (significand_is_zero : Bool) (exponent : Int) (bit_len : Nat) (max_exp min_exp : Int) : Option Bool :=")
+    out.append("  if significand_is_zero then none else if %s then some true else if %s then some false else none\n" % (tr_range(mm.group(1)), tr_range(mm.group(2))))
+    info["exponent_out_of_range"] = [mm.group(1), mm.group(2)]
     rrel = "rational/src/convert.rs"
     rsrc = read(rrel)
     for ty in ("f32", "f64"):
@@ -4613,6 +4802,51 @@ def gen_repr_ones():
 
 FILES["ReprOnes.lean"] = gen_repr_ones            # C09: Repr::ones in full (additive)
 
+
+def gen_bit_dispatch():
+    """C09 (Tie A): the TypedRepr-level dispatch of `& | ^ and_not` (bits.rs `mod repr`: sixteen impls on TypedRepr / TypedReprRef),
+    one definition per ownership form over the regenerated word loops of Gen/BitOpsHeap — see vlib/extract_bitdispatch.py.
+    `Props/GenBitDispatch.lean` proves them equal to the hand model's TRepr.bitand / bitor / bitxor / andNot."""
+    import importlib.util, sys
+    spec = importlib.util.spec_from_file_location("vlib_extract_bitdispatch",
+                                                  os.path.join(os.path.dirname(os.path.abspath(__file__)), "extract_bitdispatch.py"))
+    mod = importlib.util.module_from_spec(spec)
+    spec.loader.exec_module(mod)
+    return mod.generate(sys.modules[__name__])
+
+
+FILES["BitDispatch.lean"] = gen_bit_dispatch       # C09: operator dispatch of bits.rs (additive)
+
+
+def gen_shift_dispatch():
+    """C09 (Tie A): the four `impl Shl<usize>|Shr<usize> for TypedRepr|TypedReprRef` of shift_ops.rs (`mod repr`) over the functions
+    regenerated in Gen/ShiftHeap / Gen/BitsSmall — see vlib/extract_bitdispatch.py (`generate_shift`).
+    `Props/GenShiftDispatch.lean` proves them equal to the hand model's TRepr.shl / TRepr.shr."""
+    import importlib.util, sys
+    spec = importlib.util.spec_from_file_location("vlib_extract_bitdispatch",
+                                                  os.path.join(os.path.dirname(os.path.abspath(__file__)), "extract_bitdispatch.py"))
+    mod = importlib.util.module_from_spec(spec)
+    spec.loader.exec_module(mod)
+    return mod.generate_shift(sys.modules[__name__])
+
+
+FILES["ShiftDispatch.lean"] = gen_shift_dispatch   # C09: << / >> dispatch of shift_ops.rs (additive)
+
+
+def gen_next_pow2():
+    """C09 (Tie A): `next_power_of_two_large` (iterator statements recognised as a whole, every constant read from the source) and
+    `TypedRepr::next_power_of_two` of bits.rs — see vlib/extract_nextpow2.py.  `Props/GenNextPow2.lean` proves them equal to the hand
+    model's nextPow2Large / TRepr.nextPow2."""
+    import importlib.util, sys
+    spec = importlib.util.spec_from_file_location("vlib_extract_nextpow2",
+                                                  os.path.join(os.path.dirname(os.path.abspath(__file__)), "extract_nextpow2.py"))
+    mod = importlib.util.module_from_spec(spec)
+    spec.loader.exec_module(mod)
+    return mod.generate(sys.modules[__name__])
+
+
+FILES["NextPow2.lean"] = gen_next_pow2             # C09: next_power_of_two of bits.rs (additive)
+
 def gen_float_norm():
     """C05 (Tie A): `Repr::<B>::normalize` of float/src/repr.rs through the typed translator after three checked
     desugarings (struct pattern, UFCS, `&mut self` method in state-passing form) — see vlib/extract_floatnorm.py.
@@ -4763,6 +4997,21 @@ def gen_text_digit():
 
 
 FILES["TextDigit.lean"] = gen_text_digit          # C07: digit table of the parsers + radix range (additive)
+
+
+def gen_text_chunks():
+    """C07 (Tie A, round 6): chunk-buffer arithmetic of `TypedReprRef::to_chunks` (RefLarge arm: word_per_chunk, allocate, push_zeros)
+    and of the word-aligned shortcut of `words_to_chunks` (integer/src/convert.rs) — see vlib/extract_textchunks.py.
+    `Props/C07.lean` (`chunk_buffer_formulas_regenerated`) proves the hand model of Model/Text/ChunksBuf.lean equal to them."""
+    import importlib.util, sys
+    spec = importlib.util.spec_from_file_location("vlib_extract_textchunks",
+                                                  os.path.join(os.path.dirname(os.path.abspath(__file__)), "extract_textchunks.py"))
+    mod = importlib.util.module_from_spec(spec)
+    spec.loader.exec_module(mod)
+    return mod.generate(sys.modules[__name__])
+
+
+FILES["TextChunks.lean"] = gen_text_chunks        # C07 round 6: chunk-buffer arithmetic of to_chunks / words_to_chunks (additive)
 
 
 def gen_arch_add():
@@ -5053,6 +5302,62 @@ MUTATIONS = [
      "Repr::ones (heap arm) pushes one all-ones word too few (Props/GenReprOnes.gen_repr_ones)"),
     ("M163", "integer/src/repr.rs", r"unsafe \{ mem::transmute\(buffer\) \}\n(\s*)\}\n(\s*)\}\n\n(\s*)/// Flip the sign bit", "unsafe { mem::transmute::<Buffer, Repr>(buffer) }\n\\1}\n\\2}\n\n\\3/// Flip the sign bit",
      "Repr::ones: the transmute is written in another form (outside the recognised text: fails closed)"),
+    # C09 operator dispatch of bits.rs (Gen/BitDispatch.lean, vlib/extract_bitdispatch.py)
+    ("M164", "integer/src/bits.rs", r"\(Small\(dword0\), Large\(buffer1\)\) => bitor_large_dword\(buffer1, dword0\),", "(Small(dword0), Large(buffer1)) => bitxor_large_dword(buffer1, dword0),",
+     "`|` (val_val) inline/heap arm calls the xor kernel (Props/GenBitDispatch.gen_bitor_dispatch)"),
+    ("M165", "integer/src/bits.rs", r"\(Large\(buffer0\), RefLarge\(buffer1\)\) => and_not_large\(buffer0, buffer1\),", "(Large(buffer0), RefLarge(buffer1)) => and_not_large(buffer1.into(), &buffer0),",
+     "and_not (val_ref) heap/heap arm with the operands exchanged: y & !x (Props/GenBitDispatch.gen_and_not_dispatch)"),
+    ("M166", "integer/src/bits.rs", r"Repr::from_dword\(buffer0\.lowest_dword\(\) & dword1\)", "Repr::from_dword(buffer0.lowest_dword() | dword1)",
+     "`&` heap/inline shortcut uses `|` (Props/GenBitDispatch.gen_bitand_dispatch)"),
+    ("M167", "integer/src/bits.rs", r"\(Small\(dword0\), Small\(dword1\)\) => Repr::from_dword\(dword0 & !dword1\),", "(Small(dword0), Small(dword1)) => Repr::from_dword(dword0 & dword1),",
+     "and_not (val_val) inline/inline arm drops the complement (Props/GenBitDispatch.gen_and_not_dispatch)"),
+    ("M168", "integer/src/bits.rs", r"\(RefSmall\(dword0\), Large\(buffer1\)\) => \{\n\s*Repr::from_dword\(dword0 & !buffer1\.lowest_dword\(\)\)\n\s*\}", "(RefSmall(dword0), Large(buffer1)) => and_not_large_dword(buffer1, dword0),",
+     "and_not (ref_val) inline/heap arm computes y & !x on the heap (Props/GenBitDispatch.gen_and_not_dispatch)"),
+    ("M169", "integer/src/bits.rs", r"rhs\.bitand\(self\)", "rhs.bitor(self)",
+     "`&` (ref_val) forwards to `|` (outside the subset: the forwarding must name the impl's own method — fails closed)"),
+    # C09 next_power_of_two (Gen/NextPow2.lean, vlib/extract_nextpow2.py)
+    ("M170", "integer/src/bits.rs", r"let mut iter = buffer\[\.\.n - 1\]\.iter_mut\(\)", "let mut iter = buffer[..n - 2].iter_mut()",
+     "next_power_of_two_large does not look at the word below the top word (Props/GenNextPow2.gen_next_power_of_two_large)"),
+    ("M171", "integer/src/bits.rs", r"None => 0,\n(\s*)Some\(x\) => \{\n(\s*)\*x = 0;", "None => 1,\n\\1Some(x) => {\n\\2*x = 0;",
+     "next_power_of_two_large carries although all low words are zero: an exact power of two is doubled (Props/GenNextPow2.gen_next_power_of_two_large)"),
+    ("M172", "integer/src/bits.rs", r"for x in iter \{\n(\s*)\*x = 0;\n(\s*)\}\n(\s*)1\n", "for x in iter {\n\\1*x = 0;\n\\2}\n\\3 0\n",
+     "next_power_of_two_large loses the carry of non-zero low words (Props/GenNextPow2.gen_next_power_of_two_large)"),
+    ("M173", "integer/src/bits.rs", r"\*last = 0;\n(\s*)buffer\.push_resizing\(1\);", "*last = 1;\n\\1buffer.push_resizing(1);",
+     "next_power_of_two_large leaves a bit in the old top word on overflow (Props/GenNextPow2.gen_next_power_of_two_large)"),
+    ("M174", "integer/src/bits.rs", r"let mut buffer = Buffer::allocate\(3\);\n(\s*)buffer\.push_zeros\(2\);\n(\s*)buffer\.push\(1\);", "let mut buffer = Buffer::allocate(3);\n\\1buffer.push_zeros(1);\n\\2buffer.push(1);",
+     "TypedRepr::next_power_of_two: the spilled inline arm builds 2^W instead of 2^(2W) (Props/GenNextPow2.gen_next_power_of_two)"),
+    ("M175", "integer/src/bits.rs", r"\.skip_while\(\|x\| \*\*x == 0\);", ".skip_while(|x| **x != 0);",
+     "next_power_of_two_large skips the NON-zero words (outside the recognised statement sequence: fails closed)"),
+    ("M176", "integer/src/bits.rs", r"if words\[0\] & 1 == 0 \{\n(\s*)Some\(0\)", "if words[0] & 1 == 1 {\n\\1Some(0)",
+     "trailing_ones_neg (heap arm) with the parity test inverted (Props/GenScans.gen_trailing_ones_neg_large)"),
+    ("M177", "integer/src/bits.rs", r"Some\(trailing_zeros_large_shifted_by_one\(words\) \+ 1\)", "Some(trailing_zeros_large_shifted_by_one(words))",
+     "trailing_ones_neg (heap arm) forgets the lowest one bit (Props/GenScans.gen_trailing_ones_neg_large)"),
+    # C09 sign-level bit functions of IBig (Gen/IntBits.lean, typed translator)
+    ("M178", "integer/src/bits.rs", r"Ordering::Greater => !repr\.bit\(n\),", "Ordering::Greater => repr.bit(n),",
+     "IBig::bit of a negative value: bits above the lowest set bit not complemented (Props/GenIntBits.gen_ibig_bit)"),
+    ("M179", "integer/src/bits.rs", r"Ordering::Equal => true,\n(\s*)Ordering::Greater => !repr\.bit\(n\),\n(\s*)Ordering::Less => false,", "Ordering::Equal => false,\n\\1Ordering::Greater => !repr.bit(n),\n\\2Ordering::Less => true,",
+     "IBig::bit of a negative value: the lowest set bit and the zeros below it exchanged (Props/GenIntBits.gen_ibig_bit)"),
+    ("M180", "integer/src/bits.rs", r"Positive => IBig\(mag\.add_one\(\)\.with_sign\(Negative\)\),", "Positive => IBig(mag.add_one().with_sign(Positive)),",
+     "!IBig (by value) of a non-negative value keeps the sign: x + 1 instead of -x - 1 (Props/GenIntBits.gen_ibig_not)"),
+    ("M181", "integer/src/bits.rs", r"Positive => Some\(repr\.trailing_ones\(\)\),\n(\s*)Negative => repr\.trailing_ones_neg\(\),", "Positive => repr.trailing_ones_neg(),\n\\1Negative => Some(repr.trailing_ones()),",
+     "IBig::trailing_ones with the sign arms exchanged (Props/GenIntBits.gen_ibig_trailing_ones)"),
+    # C09 shl_dword (Gen/ShiftHeap.lean, appended in round 6)
+    ("M182", "integer/src/shift_ops.rs", r"if rhs <= dword\.leading_zeros\(\) as usize \{", "if rhs <= dword.leading_zeros() as usize + 1 {",
+     "shl_dword shifts inline one bit too far: the top bit is lost (Props/GenShiftHeap.gen_shl_dword_repr)"),
+    ("M183", "integer/src/shift_ops.rs", r"\} else if dword == 1 \{\n(\s*)shl_one_spilled\(rhs\)", "} else if dword == 2 {\n\\1shl_one_spilled(rhs)",
+     "shl_dword sends 2 (not 1) to shl_one_spilled (Props/GenShiftHeap.gen_shl_dword_repr)"),
+    # C09 << / >> dispatch of shift_ops.rs (Gen/ShiftDispatch.lean)
+    ("M184", "integer/src/shift_ops.rs", r"RefLarge\(words\) => shr_large_ref\(words, rhs\),", "RefLarge(words) => shl_large_ref(words, rhs),",
+     "`>>` of a borrowed heap value shifts left (Props/GenShiftDispatch.gen_shr_dispatch)"),
+    ("M185", "integer/src/shift_ops.rs", r"Small\(0\) => Repr::zero\(\),\n(\s*)Small\(dword\) => shl_dword\(dword, rhs\),", "Small(dword) => shl_dword(dword, rhs),",
+     "`<<` (owned) without the zero arm: shl_dword is entered with 0 (its debug_assert; 0 << n spills) (Props/GenShiftDispatch.gen_shl_dispatch)"),
+    ("M186", "integer/src/shift_ops.rs", r"Large\(buffer\) => shl_large\(buffer, rhs\),", "Large(buffer) => shl_large(buffer, rhs + 1),",
+     "`<<` (owned heap) with another count (outside the subset: arguments must be the pattern variable and rhs — fails closed)"),
+    # C09 TypedRepr::set_bit (Gen/BitsHeap.lean, appended in round 6)
+    ("M187", "integer/src/bits.rs", r"(pub fn set_bit\(self, n: usize\) -> Repr \{\n\s*match self \{\n\s*Small\(dword\) => \{\n\s*)if n < DWORD_BITS_USIZE \{", "\\1if n <= DWORD_BITS_USIZE {",
+     "set_bit (inline arm) shifts 1 by DWORD_BITS: overflow (Props/GenBitsHeap.gen_set_bit_small)"),
+    ("M188", "integer/src/bits.rs", r"Repr::from_dword\(dword \| 1 << n\)", "Repr::from_dword(dword ^ 1 << n)",
+     "set_bit (inline arm) toggles the bit (Props/GenBitsHeap.gen_set_bit_small)"),
     # C01 operator dispatch (Gen/IntDispatch.lean, vlib/extract_intdispatch.py)
     ("M48", "integer/src/add_ops.rs", r"\(RefLarge\(words0\), Large\(buffer1\)\) => sub_large\(buffer1, words0\)\.neg\(\),", "(RefLarge(words0), Large(buffer1)) => sub_large(buffer1, words0),",
      "drop the `.neg()` of the large/large arm of `SubSigned<TypedRepr> for TypedReprRef`"),
@@ -5112,6 +5417,8 @@ BENIGN = [
     ("R23", "integer/src/add_ops.rs", r"\(RefSmall\(dword0\), RefLarge\(buffer1\)\) => \{\n\s*sub_large_dword\(buffer1\.into\(\), dword0\)\.neg\(\)\n\s*\}",
      "(RefSmall(dword0), RefLarge(buffer1)) => sub_large_dword(buffer1.into(), dword0).neg(),",
      "an arm of the operator dispatch written without the block braces (SubSigned ref/ref, C01)"),
+    ("R24", "integer/src/bits.rs", r"if buffer0\.len\(\) <= buffer1\.len\(\) \{\n(\s*)bitand_large\(buffer0, &buffer1\)", "if buffer0.len() >= buffer1.len() {\n\\1bitand_large(buffer0, &buffer1)",
+     "`&` (val_val) heap/heap: the LONGER buffer is reused — the value is the same (bitand_large truncates); Props/GenBitDispatch.gen_bitand_dispatch survives"),
 ]
 
 
